@@ -38,6 +38,9 @@ type Case struct {
 	N    int      `json:"calls,omitempty"`
 	G    int      `json:"goroutines,omitempty"`
 	Seed uint64   `json:"seed,omitempty"`
+	// failing-input search legs: kind "typed" | "period" | "scale" | "aged"; "conc" with a slow queue consumer
+	Typed  *typedCase `json:"typed,omitempty"`
+	SlowUS int        `json:"slow_us,omitempty"`
 }
 
 type event struct {
